@@ -1175,10 +1175,24 @@ theorem portable_json_roundtrip (subst : List Quantity → Equation → Equation
     obtain ⟨h1, h2, h3, _⟩ := w.vars_ok v hv
     exact importVariantJson_roundtrip d tol v w.nodup h1 h2 h3)
 
-/-- a witness that changes really are lost: in the non-flat demo model a steady change of `x` of 1/2 comes back as `None` -/
-example : (fromPortableG importVariantJson (fun _ e => e) 0
-      (toPortable dW [([none, some 0, some 0, some (1 / 3), some 1], [some (1 / 2), none, none, none, none])])).toOption.map
-        (fun r => r.2) = some [([none, some 0, some 0, some (1 / 3), some 1], [none, none, none, none, none])] := by decide
+private def varsW2 : List (List Val × List Val) :=
+  [([none, some 0, some 0, some (1 / 3), some 1], [some 2, none, none, none, none])]
+
+theorem portableWF_example2 : PortableWF dW baseW varsW2 :=
+  { portableWF_example with
+    vars_ne := by simp [varsW2]
+    vars_ok := by
+      intro v hv
+      simp only [varsW2, List.mem_cons, List.not_mem_nil, or_false] at hv
+      subst hv
+      exact ⟨rfl, rfl, rfl, rfl⟩ }
+
+/-- a witness that changes really are lost: in the (non-flat) demo model a steady change 2 of `x` comes back as `None`
+through JSON, while `rho = 1/3` and every other level come back exactly -/
+example : fromPortableG importVariantJson (fun _ e => e) 0 (toPortable dW varsW2)
+    = .ok (roundTripped dW 0, [([none, some 0, some 0, some (1 / 3), some 1], [none, none, none, none, none])]) := by
+  rw [portable_json_roundtrip _ 0 dW baseW varsW2 portableWF_example2]
+  rfl
 
 /-! ### the anticipated-shock substitution on tokens -/
 
